@@ -159,7 +159,12 @@ fn one(ctx: &mut Ctx, bin: &str, args: &[String], input: &[u8], inproc_args: Opt
             fail(ctx, "zero-exit-on-malformed-input-under-panic", "a non-zero exit status (the input is not a clean JSON stream)".into());
             continue;
         }
-        let must_succeed = ref_ok && all_accepted && !must_fail_input;
+        // likewise independent of the library run: a configuration of a class known to be invalid must fail
+        if !valid && c.code == Some(0) {
+            fail(ctx, "zero-exit-on-invalid-configuration", "a non-zero exit status (the configuration is invalid)".into());
+            continue;
+        }
+        let must_succeed = ref_ok && all_accepted && !must_fail_input && valid;
         if c.signal.is_some() {
             fail(ctx, "killed-by-signal", "a normal exit".into());
             continue;
